@@ -25,7 +25,7 @@ theorem cur_select_outside_lock : Skeleton.current.bcPublishSelectOutsideLock = 
 theorem cur_recovers : Skeleton.current.stubRecovers = true := by decide
 theorem cur_firstonly : FirstOnly Skeleton.current := ⟨by decide, by decide, by decide⟩
 theorem cur_storefirst : StoreFirst Skeleton.current := ⟨by decide⟩
-theorem cur_closurefreed : ClosureFreed Skeleton.current := ⟨by decide⟩
+theorem cur_closurefreed : ClosureFreed Skeleton.current := ⟨by decide, by decide⟩
 theorem cur_waiterfrees : WaiterFrees Skeleton.current := ⟨by decide, by decide⟩
 theorem cur_live : Live Skeleton.current :=
   { hyg := cur_hyg, nochan := cur_nochanclose, wakes := cur_wakes, outside := by decide,
